@@ -77,6 +77,11 @@ func NormResult(method, s string) string {
 	if method == "textDocument/completion" {
 		stripData(v)
 	}
+	// an empty list and null are the same answer to a client ("nothing here"); the server returns
+	// either depending on whether a slice was ever allocated on the path taken
+	if arr, ok := v.([]interface{}); ok && len(arr) == 0 {
+		return "null"
+	}
 	b, _ := json.Marshal(canon(v))
 	return string(b)
 }
